@@ -9,6 +9,7 @@ Included in this file you will find:
 
 """
 import collections
+import os
 import re
 import keyword
 
@@ -20,6 +21,27 @@ from .pyrtlexceptions import PyrtlError, PyrtlInternalError
 #   |__) |    /  \ /  ` |__/
 #   |__) |___ \__/ \__, |  \
 #
+
+class _VerifSeededSet(object):
+    """ Verification hook (only used when PYRTL_VERIF=1 and PYRTL_VERIF_ITER_SEED is set):
+    a worklist whose pop() makes a seeded pseudo-random choice instead of set order. """
+
+    def __init__(self, items, seed):
+        import random
+        self._items = sorted(items, key=lambda w: w.name)
+        self._rng = random.Random(seed)
+
+    def __len__(self):
+        return len(self._items)
+
+    def pop(self):
+        return self._items.pop(self._rng.randrange(len(self._items)))
+
+    def update(self, items):
+        for x in items:
+            if not any(x is y for y in self._items):
+                self._items.append(x)
+
 
 class LogicNet(collections.namedtuple('LogicNet', ['op', 'op_param', 'args', 'dests'])):
     """ The basic immutable datatype for storing a "net" in a netlist.
@@ -571,6 +593,9 @@ class Block(object):
         to_clear = self.wirevector_subset((Input, Const, Register))
         cleared = set()
         remaining = self.logic.copy()
+        if os.environ.get('PYRTL_VERIF') == '1' and os.environ.get('PYRTL_VERIF_ITER_SEED'):
+            # verification hook (guarded, off by default): seeded tie-breaking of the worklist
+            to_clear = _VerifSeededSet(to_clear, os.environ['PYRTL_VERIF_ITER_SEED'])
         try:
             while len(to_clear):
                 wire_to_check = to_clear.pop()
